@@ -118,6 +118,11 @@ fn decode_case(g: &mut Gen, ctx: &mut Ctx) -> CaseResult {
         };
         entries.push((k, v));
     }
+    if ty != MapTy::Claims && g.ratio(1, 4) {
+        // labels of every kind and encoded size around the pair
+        crate::gen::add_mixed_labels(g, &mut entries);
+        ctx.class("mixed-label-kinds");
+    }
     // mostly an existing (valid) label is repeated; sometimes the repeated key is itself not a valid
     // label of this map (unregistered claim name, out-of-range integer, not a label at all): such a
     // map is all the more to be rejected
@@ -153,10 +158,21 @@ fn decode_case(g: &mut Gen, ctx: &mut Ctx) -> CaseResult {
         Item::Text(_) => "text",
         _ => "other",
     }));
+    // sometimes the map goes on, after the second occurrence, with a key that is not a label at all
+    // (or an integer outside the 64-bit range): the repeated label still comes first
+    let mut entries = entries;
+    if g.ratio(1, 8) {
+        let junk = if g.bool() { crate::gen::gen_out_of_range(g) } else { crate::gen::gen_non_label(g) };
+        let at = later + 1 + g.below(entries.len() - later);
+        entries.insert(at, (junk, gen_value(g, 1, false)));
+        ctx.class("dup-followed-by-non-label-key");
+    }
     let map = Item::Map(entries.clone());
     let mut without_later = entries.clone();
     without_later.remove(later);
-    let only_fault = model_accepts(ty, &Item::Map(without_later));
+    // the duplicate is "the fault met first" when everything before its second occurrence is fine
+    let first_fault = model_accepts(ty, &Item::Map(entries[..later].to_vec()));
+    let only_fault = model_accepts(ty, &Item::Map(without_later)) || first_fault;
     ctx.class(if only_fault { "duplicate-is-only-fault" } else { "duplicate-among-other-faults" });
 
     let mut in_keyset = false;
@@ -185,7 +201,7 @@ fn decode_case(g: &mut Gen, ctx: &mut Ctx) -> CaseResult {
         Ok(()) => fail!("map with the same label twice accepted\n  item: {}\n  bytes: {}", diag(&top), hex_trunc(&bytes, 300)),
         Err(e) => {
             if only_fault && propagates {
-                ensure!(is_dup(&e), "duplicate label is the only fault but the error is {:?}, not the duplicate-key error\n  item: {}\n  bytes: {}", e, diag(&top), hex_trunc(&bytes, 300));
+                ensure!(is_dup(&e), "duplicate label is the only fault (or the first one met) but the error is {:?}, not the duplicate-key error\n  item: {}\n  bytes: {}", e, diag(&top), hex_trunc(&bytes, 300));
             }
         }
     }
